@@ -3,7 +3,7 @@ use crate::rng::Rng;
 use yata::core::Candle;
 
 pub const CLASSES: &[&str] = &[
-	"alphabet", "zeros", "walk", "noise", "flat_regime", "scale_jump", "monotone", "spikes", "plateaus",
+	"alphabet", "zeros", "walk", "noise", "flat_regime", "scale_jump", "monotone", "spikes", "plateaus", "impulse",
 ];
 
 /// a value stream of one class
@@ -78,6 +78,13 @@ pub fn stream(rng: &mut Rng, len: usize, class: &str) -> Vec<f64> {
 				} else {
 					v.push(base + 0.01 * rng.gauss());
 				}
+			}
+		}
+		// a single unit impulse on a zero background: the outputs are the weight profile
+		"impulse" => {
+			let at = rng.below(len.max(1) as u64 / 3 + 1) as usize;
+			for i in 0..len {
+				v.push(if i == at { 1.0 } else { 0.0 });
 			}
 		}
 		// runs of repeated values of random length
